@@ -205,7 +205,7 @@ func energyValueRule(c *an.Ctx, fn *ssa.Function) {
 		}
 	}
 	if reading == nil {
-		c.Undecided("PRED", fn, fn.Pos(), an.KeyOf(fn, "reading"), "no strconv.ParseFloat call found", "shape not recognised")
+		c.Violated("PRED", fn, fn.Pos(), an.KeyOf(fn, "reading"), "the reading is not parsed with strconv.ParseFloat (fractional and exponent readings are well-formed; only an unparseable reading gives the sentinel 3)", "no strconv.ParseFloat call found")
 		return
 	}
 	parseErr := func() *an.Term {
@@ -294,6 +294,12 @@ func energyValueRule(c *an.Ctx, fn *ssa.Function) {
 			// first column of the same row as the reading
 			col0 := arg.A[0].A[0]
 			okTS = col0.K == an.KLoad && col0.A[0].K == an.KIA && isConstTerm(col0.A[0].A[1], "0") && sameRow(col0, reading)
+			// parsed as a decimal 64-bit integer: a timestamp at or after 2^31 seconds is a well-formed row too
+			if len(arg.A[0].A) == 3 {
+				base, isB := arg.A[0].A[1].IsConst()
+				bits, isS := arg.A[0].A[2].IsConst()
+				c.Check(isB && base == "10" && isS && bits == "64", "PRED", fn, tsVal.Pos(), an.KeyOf(fn, "timestamp-width"), "the row's timestamp is parsed as a base-10, 64-bit integer (every timestamp UnixToTimeslot accepts is a well-formed row)", "ParseInt(col0, "+base+", "+bits+")")
+			}
 		}
 	}
 	// the reading is the SECOND column of the row
@@ -468,7 +474,20 @@ func calibrationRule(c *an.Ctx, fn *ssa.Function) {
 				continue
 			}
 			if _, isConst := st.Val.(*ssa.Const); isConst {
-				continue // defaults
+				// defaults: only when the settings file does not exist (any other failure to read it is an error, not
+				// "calibration absent")
+				absent := false
+				for _, f := range fi.FactsAt(st) {
+					if f.Neg {
+						continue
+					}
+					cn := f.T.Callee()
+					if cn == "os.IsNotExist" || (cn == "errors.Is" && strings.Contains(f.T.Key(), "ErrNotExist")) {
+						absent = true
+					}
+				}
+				c.Check(absent, "PRED", fn, st.Pos(), an.KeyOf(fn, "calibration-default:"+fieldNameOf(fa)), "the default "+fieldNameOf(fa)+" is installed only when the settings file does not exist (os.IsNotExist of the read error)", "facts "+factList(fi.FactsAt(st)))
+				continue
 			}
 			n++
 			vt := fi.RefineAt(fi.Term(st.Val), st)
